@@ -397,9 +397,10 @@ def registered_commands():
 # Bytes that are hostile to a reply builder: format verbs (a value spliced into a format string), RESP markers,
 # line terminators, quotes, NUL, non-UTF-8, a value longer than one reply chunk.
 HOSTILE = [b"%", b"%d", b"%s%s", b"100%", b"%!x", b"%v %d", b"\\", b"\"q\"", b"'", b"{}", b"$5", b"*2", b":1", b"+OK", b"-ERR x",
-           b"\r", b"\n", b"a\r\nb", b"\r\n$3\r\nfoo\r\n", b"\x00", b"\xff\xfe", b" ", b"%" * 40, b"x" * 1500]
+           b"\r", b"\n", b"a\r\nb", b"\r\n$3\r\nfoo\r\n", b"\x00", b"\xff\xfe", b" ", b"%" * 40, b"x" * 1500,
+           b"$-1", b"*-1", b"discount:$-1", b"$-1\r\n", b"x*-1\r\ny", b"_\r\n", b"#t", b",1.5"]
 
-def gen_stored_bytes(rng, thorough):
+def gen_stored_bytes(rng, thorough, resp3=False):
     """Every container type stores each hostile byte string (as value, element, field, member, key name) and every
     reader of that type must answer with exactly one well-formed reply that carries the stored bytes intact."""
     out = []
@@ -424,8 +425,10 @@ def gen_stored_bytes(rng, thorough):
     vals = HOSTILE if thorough else HOSTILE
     for vi, v in enumerate(vals):
         for kind, ws, rs in writers_readers(v):
-            c = Case("bytes_%s_%d" % (kind, vi), "oracle")
+            c = Case("bytes%s_%s_%d" % ("3" if resp3 else "", kind, vi), "oracle")
             exp, blob, marker = [], b"", 0
+            if resp3:
+                blob += enc("HELLO", "3"); exp.append(["cmd", 1, [b"HELLO".hex(), b"3".hex()]])
             def mark():
                 nonlocal blob, marker
                 m = ("m%04d" % marker).encode(); marker += 1
@@ -584,6 +587,7 @@ class C12:
             "quit": gen_quit(),
             "every-registered-command": gen_all_commands(r, names, th),
             "stored-bytes-intact": gen_stored_bytes(r, th),
+            "stored-bytes-intact-resp3": gen_stored_bytes(r, th, resp3=True),
         }
 
     def evaluate(self, cases):
